@@ -4,6 +4,7 @@
 import ChessVerif.Model.Text
 import ChessVerif.Lemmas.SanShapes
 import ChessVerif.Lemmas.SanRound
+import ChessVerif.Lemmas.GenShapeWf
 namespace Chess.Props
 
 /-- C17 (matcher): on every text shape the printer can produce for a piece move — any of N B R Q K, with or without
@@ -97,5 +98,12 @@ def c17StartBoard : List Nat :=
 def c17Start : Position := { side := 0, halfmove := 0, ply := 1, board := c17StartBoard, castling := 15, ep := 64, hash := {}, history := [] }
 set_option maxRecDepth 100000 in
 example : genShapeB c17Start = true ∧ (genMoves c17Start).length = 20 := by decide +kernel
+
+/-- **C17, unconditional on well-formed positions**: the shape hypothesis of `C17_roundtrip` is a theorem there
+    (`genShapeB_of_wf`, Lemmas/GenShape*.lean), so for every well-formed position and every generated move the SAN text parses back
+    to exactly that move. -/
+theorem C17_roundtrip_wf (p : Position) (hwf : Spec.wf (Chess.absPos p) = true) (m : Nat) (hm : m ∈ genMoves p) :
+    parseSan p (san p m) = some m :=
+  C17_roundtrip p (genShapeB_of_wf p hwf) m hm
 
 end Chess.Props
